@@ -1,21 +1,28 @@
 #!/bin/bash
-# Extracts the Coq definitions to OCaml and builds the two oracle executables.
-# usage: build_oracles.sh spec|gen|all
+# Extracts Coq definitions to OCaml and builds oracle executables.
+#   build_oracles.sh <name>...   |   build_oracles.sh all
+# Oracle <name>: coq/theories/Extract/<Name>Oracle.v must run
+#   Extraction "<name>_oracle.ml" ...
+# and tools/oracle/<name>_main.ml is its driver.  The driver source is
+#   open <Name>_oracle ;; tools/oracle/util.ml ;; [util_isa.ml if <name>_main.ml asks for it] ;; <name>_main.ml
+# (a first line "(* use: util_isa *)" in <name>_main.ml pulls in util_isa.ml).
 set -e
-V=/verif
+V=${VERIF_ROOT:-/verif}
 O=$V/build/oracle
 mkdir -p $O
-build() {  # name  ExtractFile  extra-ml...
-  local name=$1 vfile=$2
+build() {
+  local name=$1
+  local cap="$(tr '[:lower:]' '[:upper:]' <<< ${name:0:1})${name:1}"
+  local vfile=${cap}Oracle.v
   ( cd $O && rm -f ${name}_oracle.ml ${name}_oracle.mli &&
     coqc -R $V/coq/theories Maj $V/coq/theories/Extract/$vfile > $O/${name}_extract.log 2>&1 ) || { cat $O/${name}_extract.log; return 1; }
-  local cap="$(tr '[:lower:]' '[:upper:]' <<< ${name:0:1})${name:1}_oracle"
-  { echo "open $cap"; cat $V/tools/oracle/util.ml; [ -f $V/tools/oracle/${name}_extra.ml ] && cat $V/tools/oracle/${name}_extra.ml || echo 'let extra_commands : (string * (int -> string -> unit)) list ref = ref []'; cat $V/tools/oracle/${name}_main.ml; } > $O/${name}_driver.ml
+  { echo "open ${cap}_oracle"; cat $V/tools/oracle/util.ml
+    if head -1 $V/tools/oracle/${name}_main.ml | grep -q 'use: util_isa'; then cat $V/tools/oracle/util_isa.ml; fi
+    cat $V/tools/oracle/${name}_main.ml; } > $O/${name}_driver.ml
   ( cd $O && ocamlfind ocamlopt -O3 -w -a ${name}_oracle.mli ${name}_oracle.ml ${name}_driver.ml -o $V/build/${name}_oracle 2>/dev/null ||
     ocamlfind ocamlopt -w -a ${name}_oracle.mli ${name}_oracle.ml ${name}_driver.ml -o $V/build/${name}_oracle )
 }
-case "${1:-all}" in
-  spec) build spec SpecOracle.v ;;
-  gen) build gen GenOracle.v ;;
-  all) build spec SpecOracle.v; build gen GenOracle.v ;;
-esac
+if [ "${1:-all}" = all ]; then
+  set -- $(cd $V/tools/oracle && ls *_main.ml | sed 's/_main.ml//')
+fi
+for n in "$@"; do build $n; done
